@@ -144,6 +144,9 @@ func (v *c11) OnStep(x *Ctx, s *St, op Op, post *pf.GameState) string {
 // RunC11 explores the play grid with the offer table and action post-conditions.
 func RunC11(rep *explore.Report, tier string) {
 	rep.Set("rule", "every RoundStarted state of the play grid: offered actions against the situation table; every accepted action: its post-condition; distinct_nontrivial = distinct offered-action sets observed")
+	if RunScenes(rep, tier, Visitors["C11"], GridOpts{Property: "C11"}) {
+		return
+	}
 	RunGrid(rep, PlayGrid(tier), Visitors["C11"], GridOpts{Property: "C11", MaxState: 3000000})
 	// the same oracle on genuinely uninterrupted objects (pure replay, no state cloning)
 	RunGrid(rep, ReplayGrid(tier), Visitors["C11"], GridOpts{Property: "C11", MaxState: 300000, Mode: "replay"})
